@@ -180,11 +180,14 @@ class ClientDriver(ReorgDriver):
         self.mark('n', kind, height, len(touched))
         self.w.sim.log('N', kind, height, sorted(t.hex()[:6] if isinstance(t, bytes) else t for t in touched)[:8])
         if kind in ('block', 'start', 'notify'):
-            disk = self.w.fs.files.get('/db/meta/headers00', b'')
             for hh in range(max(0, height - 12), height + 1):
-                self.seen_headers.add((hh, bytes(disk[hh * 80:(hh + 1) * 80]).hex()))
+                self.seen_headers.add((hh, self.disk_header(hh).hex()))
         if kind == 'mempool':
             self.on_mempool_refresh(height, touched)
+
+    def disk_header(self, h):
+        from sim.seams import read_logical
+        return read_logical(self.w.fs, '/db/meta/headers', 2, self.w.k.get('file_size') or 16000000, h * 80, 80)
 
     def check_notif_oracle(self, final):
         for clause, msg in self.notif.errors[:1]:
@@ -332,8 +335,7 @@ class ClientDriver(ReorgDriver):
             # the header must be that of a block it has had on disk at that height (a reply from the
             # header-subscription cache may lag behind a reorganisation; the tip oracle at
             # quiescence judges that)
-            disk = self.w.fs.files.get('/db/meta/headers00', b'')
-            on_disk = bytes(disk[h * 80:(h + 1) * 80]).hex()
+            on_disk = self.disk_header(h).hex()
             if srv.db.state.height >= h:
                 self.seen_headers.add((h, on_disk))
             if (h, res['hex']) not in self.seen_headers:
